@@ -273,6 +273,20 @@ def opassign_spec(t0, op, ct, c, v):
     return O.spec_convert(ct, t0, bits)
 
 
+def lean_evaluable(shape):
+    """can `drv_c02 chainval` (Spec.FpC11.convertChain on the toy FPU) give the value?  Integer source, integer result, and no link
+    that narrows a floating type (FpuSpec has no contract on the value of a narrowing)"""
+    c, t0, ts, _ = shape
+    if c == 'opassign' or t0 not in O.ITYS or ts[-1] not in O.ITYS:
+        return False
+    prev = t0
+    for t in ts:
+        if prev in FMT and t in FMT and RANK[t] < RANK[prev]:
+            return False
+        prev = t
+    return True
+
+
 def oracle_shapes(ctx):
     """[(ctx, t0, ts, extra)]: the conversions performed are t0 -> ts[0] -> ... -> ts[-1]"""
     rng = ctx.rng
@@ -416,6 +430,7 @@ def run_chain_oracle(ctx, corr, compile_run, parse_output, violation, describe, 
     per = 48 if ctx.thorough else 22
     use, specs = [], []
     skipped = 0
+    lean_cases = []
     for k, shape in enumerate(shapes):
         c, t0, ts, extra = shape
         vs = values[t0]
@@ -425,8 +440,11 @@ def run_chain_oracle(ctx, corr, compile_run, parse_output, violation, describe, 
         idx = list(range(len(vs))) if (hot or len(vs) <= per) else sorted(rng.sample(range(ncore), min(ncore, per * 2 // 3)) +
                                                                            rng.sample(range(ncore, len(vs)), min(len(vs) - ncore, per // 3)))
         ok, sp_k = [], {}
+        lean_ok = lean_evaluable(shape)
         for i in idx:
             sp = opassign_spec(t0, extra[0], ts[0], extra[3], vs[i]) if c == 'opassign' else chain_spec(t0, ts, vs[i])
+            if lean_ok:
+                lean_cases.append((f'{t0} {vs[i]} {" ".join(ts)}', sp, shape))
             if sp[0] in ('ub', 'skip'):
                 skipped += 1
                 continue
@@ -435,6 +453,19 @@ def run_chain_oracle(ctx, corr, compile_run, parse_output, violation, describe, 
         use.append(ok)
         specs.append(sp_k)
     corr.count('skipped_ub', skipped)
+    # the specification of C02_cast_chain itself (Spec.FpC11.convertChain, on the toy FPU) against the python spec, undefined cases included
+    res = ctx.driver('chainval', ''.join(l + '\n' for l, _, _ in lean_cases)).splitlines()
+    if len(res) != len(lean_cases):
+        corr.disagreements.append({'kind': 'chain spec', 'what': f'driver answered {len(res)} lines for {len(lean_cases)} chains'})
+        return
+    for (line, sp, shape), r in zip(lean_cases, res):
+        corr.evaluations += 1
+        corr.count('chain:lean-spec')
+        want = 'ub' if sp[0] == 'ub' else (f'int {sp[1]}' if sp[0] == 'int' else '?')
+        if r != want:
+            corr.disagreements.append({'kind': 'Lean Spec.convertChain vs python spec', 'chain': line, 'what': describe_shape(shape),
+                                       'lean': r, 'python': want})
+            return
     text = chain_program(shapes, values, use)
     oc, og, errs = compile_run(ctx, 'chain', text)
     for e in errs:
